@@ -169,7 +169,13 @@ func suiteC08Slow(c *Ctx) {
 	c.Cov.Traces = c.Cov.Schedules
 }
 
-// c08fault: a fault at one moment of the shutdown -- one reporter call made by the winning Close (the final pass's
+// c08fault -- A PROBE, NOT PART OF ANY CHECK (tools/props_table.py does not list it).  C08 quantifies over the moments
+// at which Close is called, record histories, concurrent callers and kinds of reporter; a reporter whose calls PANIC is
+// not among them, and "further Close calls return nil" speaks of calls made after Close has RETURNED - a Close that
+// ended in the reporter's panic has not.  Demanding anything here would demand more than the property states, so the
+// suite is kept for reference only (run it by name through the harness binary); see DESIGN.md 10.6.
+//
+// a fault at one moment of the shutdown -- one reporter call made by the winning Close (the final pass's
 // counter delivery, the last Flush, or the reporter's own Close) panics once and the application recovers, as a
 // deferred Close in main under a recover would.  "Further Close calls return nil": a later Close, and a Close that was
 // already waiting for the first one, must return (a completion signal that is raised only on the normal way out would
